@@ -276,6 +276,18 @@ impl RawRwLock {
     }
 }
 
+#[cfg(feature = "verif-hooks")]
+impl RawRwLock {
+    /// `state`, inner mutex word; listeners of the inner mutex, `no_readers`, `no_writer`.
+    pub(super) fn __verif_snapshot(&self) -> crate::__verif::Snapshot {
+        let mut snap = self.mutex.__verif_snapshot();
+        snap.words.insert(0, self.state.load(Ordering::SeqCst));
+        snap.events.push(crate::__verif::event(&self.no_readers));
+        snap.events.push(crate::__verif::event(&self.no_writer));
+        snap
+    }
+}
+
 pin_project_lite::pin_project! {
     /// The future returned by [`RawRwLock::read`].
 
